@@ -28,9 +28,7 @@ use futures::{
 };
 use std::{collections::VecDeque, sync::Arc, time::SystemTime};
 
-use super::error::{InternalError, QuotaExceeded};
-
-const ERRMSG_HANDLE_DROPPED: &str = "Unable to complete async operation.";
+use super::error::QuotaExceeded;
 
 struct Session {
     awaiting_ack: VecDeque<(usize, oneshot::Sender<Result<RxPacket, MqttError>>)>,
@@ -118,6 +116,8 @@ where
         }
     }
 
+    // Note on `let _ = <response channel>.send(..)` below and in `handle_packet`: the send fails
+    // only if the caller dropped the future of the operation, which must not end `run`.
     async fn handle_message(
         tx: &mut TxPacketStream<TxStreamT>,
         connection: &mut Connection,
@@ -127,22 +127,16 @@ where
         match msg {
             ContextMessage::FireAndForget(msg) => {
                 if let Err(err) = Self::validate_packet_size(connection, msg.packet.as_ref()) {
-                    msg.response_channel
-                        .send(Err(err))
-                        .map_err(|_| InternalError::from(ERRMSG_HANDLE_DROPPED))?;
+                    let _ = msg.response_channel.send(Err(err));
                     return Ok(());
                 }
 
                 tx.write(msg.packet.freeze().as_ref()).await?;
-                msg.response_channel
-                    .send(Ok(()))
-                    .map_err(|_| InternalError::from(ERRMSG_HANDLE_DROPPED))?;
+                let _ = msg.response_channel.send(Ok(()));
             }
             ContextMessage::AwaitAck(mut msg) => {
                 if let Err(err) = Self::validate_packet_size(connection, msg.packet.as_ref()) {
-                    msg.response_channel
-                        .send(Err(err))
-                        .map_err(|_| InternalError::from(ERRMSG_HANDLE_DROPPED))?;
+                    let _ = msg.response_channel.send(Err(err));
                     return Ok(());
                 }
 
@@ -150,9 +144,7 @@ where
 
                 if packet_id == PublishTx::PACKET_ID {
                     if connection.send_quota == 0 {
-                        msg.response_channel
-                            .send(Err(QuotaExceeded.into()))
-                            .map_err(|_| InternalError::from(ERRMSG_HANDLE_DROPPED))?;
+                        let _ = msg.response_channel.send(Err(QuotaExceeded.into()));
                         return Ok(());
                     }
 
@@ -188,9 +180,7 @@ where
             }
             ContextMessage::Subscribe(msg) => {
                 if let Err(err) = Self::validate_packet_size(connection, msg.packet.as_ref()) {
-                    msg.response_channel
-                        .send(Err(err))
-                        .map_err(|_| InternalError::from(ERRMSG_HANDLE_DROPPED))?;
+                    let _ = msg.response_channel.send(Err(err));
                     return Ok(());
                 }
 
@@ -311,9 +301,7 @@ where
                     utils::linear_search_by_key(&session.awaiting_ack, action_id)
                         .and_then(|pos| session.awaiting_ack.remove(pos))
                 {
-                    sender
-                        .send(Ok(rx_packet))
-                        .map_err(|_| InternalError::from(ERRMSG_HANDLE_DROPPED))?;
+                    let _ = sender.send(Ok(rx_packet));
                 }
             }
             RxPacket::Pubrec(pubrec) => {
@@ -332,9 +320,7 @@ where
                     utils::linear_search_by_key(&session.awaiting_ack, action_id)
                         .and_then(|pos| session.awaiting_ack.remove(pos))
                 {
-                    sender
-                        .send(Ok(rx_packet))
-                        .map_err(|_| InternalError::from(ERRMSG_HANDLE_DROPPED))?;
+                    let _ = sender.send(Ok(rx_packet));
                 }
             }
             RxPacket::Pubcomp(pubcomp) => {
@@ -352,9 +338,7 @@ where
                     utils::linear_search_by_key(&session.awaiting_ack, action_id)
                         .and_then(|pos| session.awaiting_ack.remove(pos))
                 {
-                    sender
-                        .send(Ok(rx_packet))
-                        .map_err(|_| InternalError::from(ERRMSG_HANDLE_DROPPED))?;
+                    let _ = sender.send(Ok(rx_packet));
                 }
             }
             RxPacket::Pubrel(pubrel) => {
@@ -371,9 +355,7 @@ where
                     utils::linear_search_by_key(&session.awaiting_ack, action_id)
                         .and_then(|pos| session.awaiting_ack.remove(pos))
                 {
-                    sender
-                        .send(Ok(other))
-                        .map_err(|_| InternalError::from(ERRMSG_HANDLE_DROPPED))?;
+                    let _ = sender.send(Ok(other));
                 }
             }
         }
